@@ -1049,6 +1049,30 @@ func c09strides(c *Ctx, r *Result) {
 			}
 			a, okA := elemOf(mul.X)
 			b, okB := elemOf(mul.Y)
+			// the running-product form: run *= D[k]; X[i] = run, with run starting at 1
+			if okA != okB {
+				acc, ext := mul.X, b
+				if okA {
+					acc, ext = mul.Y, a
+				}
+				if phi, isPhi := acc.(*ssa.Phi); isPhi && len(phi.Edges) == 2 && !sameSliceValue(ext.X, dst.X) {
+					carried, one := false, false
+					for _, e := range phi.Edges {
+						if e == ssa.Value(mul) {
+							carried = true
+						} else if k, isK := constInt(e); isK && k == 1 {
+							one = true
+						}
+					}
+					if carried && one {
+						n++
+						i, k := fb.lin(dst.Index), fb.lin(ext.Index)
+						okRec := k.equal(i.add(linConst(1), 1)) || k.equal(i.add(linConst(1), -1))
+						r.Check(okRec, "C09.8", c.Name(fn)+"#stride-recurrence", c.InstrPos(st), "stride["+fb.linString(i)+"] = running product, multiplied by extent["+fb.linString(k)+"] before the store: the extent must be that of the neighbouring dimension")
+					}
+				}
+				return
+			}
 			if !okA || !okB {
 				return
 			}
